@@ -544,6 +544,14 @@ impl<I, D: Data<Elem = A>, A: Float> AffFuncBase<I, D> {
             .filter(|r| r.iter().any(|&x| x != A::zero()))
             .collect_vec();
 
+        // stacking an empty list of columns fails: an all-zero matrix becomes a function without inputs
+        if rows.is_empty() {
+            return AffFuncBase::<I, OwnedRepr<A>>::from_mats(
+                Array2::zeros((self.outdim(), 0)),
+                self.bias.to_owned(),
+            );
+        }
+
         AffFuncBase::<I, OwnedRepr<A>>::from_mats(
             stack(Axis(1), rows.as_slice()).unwrap(),
             self.bias.to_owned(),
